@@ -903,6 +903,10 @@ class Emitter:
         if name == 'infinity' and not args:
             self.fire('G3')
             return 'VP_INFINITY'
+        if name == 'epsilon' and not args:
+            # std::numeric_limits<T>::epsilon()
+            self.fire('G3')
+            return '((T)(sizeof(T) == 4 ? 1.1920928955078125e-07 : 2.220446049250313e-16))'
         if name in ('max', 'min'):
             self.fire('G3')
             return 'vp_%s_sz(%s)' % (name, ', '.join(self.emit(a) for a in args))
